@@ -2,7 +2,7 @@
 # apply each behaviour-preserving refactoring to /repo, run ALL quick checks (expect exit 0 everywhere), undo
 cd /verif
 for patch in "$@"; do
-  name=$(echo $patch | sed 's#/tmp/ref/##; s#/OUT/#-#; s#.diff##')
+  name=$(echo $patch | sed 's#/tmp/##; s#/OUT/#-#; s#.diff##; s#/#-#g')
   if ! git -C /repo diff --quiet; then echo "/repo dirty"; exit 2; fi
   git -C /repo apply $patch || { echo "$name: patch does not apply"; continue; }
   line="$name:"
